@@ -36,6 +36,7 @@ PID = 'C13'
 X = 14001            # defined differently by master versions 13 and 33 (12 vs 17 bits)
 LOCAL = 1192         # defined only by the local tables 98_0/1
 VERSIONS = [13, 19, 25, 33]
+SEQ_REDEF = 306017   # a WMO sequence that contains 007065, which the local tables 98_0/101 REdefine (other scale, width, name)
 
 
 def scratch_root():
@@ -46,8 +47,8 @@ def scratch_root():
 def build_mini_tables(root):
     """reduced copy of the bundled tables: the rows the pool needs, unchanged"""
     need_b = {1001, 1002, 2001, 5002, 8023, 8024, 10, 12101, 12001, 33007, X, LOCAL} | {31000, 31001, 31002, 31021, 31031} \
-        | {4001, 4002, 4003, 4004, 4005, 6002}
-    need_d = {301001, 301011, 301012, 301023, 301025}
+        | {4001, 4002, 4003, 4004, 4005, 6002} | {2032, 8034, 7065, 8080, 33050, 22045}
+    need_d = {301001, 301011, 301012, 301023, 301025, SEQ_REDEF}
     if os.path.isdir(root):
         shutil.rmtree(root)
     for v in VERSIONS:
@@ -55,10 +56,11 @@ def build_mini_tables(root):
         dst = os.path.join(root, '0', '0_0', str(v))
         os.makedirs(dst)
         _copy_subset(src, dst, need_b, need_d)
-    src = os.path.join(tables.TABLES_ROOT, '0', '98_0', '1')
-    dst = os.path.join(root, '0', '98_0', '1')
-    os.makedirs(dst)
-    _copy_subset(src, dst, need_b, need_d)
+    for lv in ('1', '101'):
+        src = os.path.join(tables.TABLES_ROOT, '0', '98_0', lv)
+        dst = os.path.join(root, '0', '98_0', lv)
+        os.makedirs(dst)
+        _copy_subset(src, dst, need_b, need_d)
     return root
 
 
@@ -89,6 +91,9 @@ def pool():
         ('L-v13-local', 13, (98, 0, 1), [1001, LOCAL, 2001], 1, False),
         ('V19', 19, None, [301001, 12001, X], 2, False),
         ('V25', 25, None, [1001, 12101, 204003, 31021, 5002, 204000], 1, False),
+        # the same WMO sequence without local tables and under local tables that redefine one of its elements
+        ('W-v33-seq', 33, None, [SEQ_REDEF], 1, False),
+        ('L101-v33-seq', 33, (98, 0, 101), [SEQ_REDEF, 7065], 1, False),
     ]
     out = []
     for name, version, local, descs, nsub, comp in defs:
